@@ -23,6 +23,25 @@ pub mod verif_prelude {
     pub assume_specification<T>[ <[T]>::reverse ](s: &mut [T])
         ensures final(s)@ == old(s)@.reverse();
 
+    #[verifier::external_type_specification]
+    #[verifier::external_body]
+    pub struct ExTryFromSliceError(core::array::TryFromSliceError);
+
+    // `slice.try_into()` to a fixed-size array: Ok iff the lengths agree, and then the same elements
+    // E4 shim for `slice.try_into()` to a fixed-size array (std: Ok iff the lengths agree, same elements).
+    // vstd's TryFromSpecImpl cannot be implemented for arrays from outside vstd (orphan rule).
+    pub trait VerifTryIntoArray: Sized {
+        spec fn elems(self) -> Seq<u8>;
+        fn verif_try_into<const N: usize>(self) -> (r: Result<[u8; N], core::array::TryFromSliceError>)
+            ensures r.is_ok() == (self.elems().len() == N), r matches Ok(a) ==> a@ == self.elems();
+    }
+    impl<'a> VerifTryIntoArray for &'a [u8] {
+        open spec fn elems(self) -> Seq<u8> { self@ }
+        #[verifier::external_body]
+        fn verif_try_into<const N: usize>(self) -> (r: Result<[u8; N], core::array::TryFromSliceError>)
+        { core::convert::TryInto::try_into(self) }
+    }
+
     // E4 byte-order shims: the std functions carry an anonymous const in their signature and cannot
     // take an assume_specification; the shim bodies call them, the postconditions are the positional
     // definition of big/little endian.
